@@ -147,6 +147,22 @@ func c12Axioms(res *Result, strs []string) {
 	res.Count("triples_on_impl", n*n*n)
 }
 
+// c12MixCase flips the case of some letters.
+func c12MixCase(s string, rng *Rng) string {
+	b := []byte(s)
+	for i, c := range b {
+		if rng.Bool() {
+			switch {
+			case 'a' <= c && c <= 'z':
+				b[i] = c - 32
+			case 'A' <= c && c <= 'Z':
+				b[i] = c + 32
+			}
+		}
+	}
+	return string(b)
+}
+
 func c12Random(rng *Rng, n int) []c12Pair {
 	pairs := make([]c12Pair, 0, n)
 	gen := func() string {
@@ -160,6 +176,8 @@ func c12Random(rng *Rng, n int) []c12Pair {
 				}
 			case rng.Chance(5): // arbitrary ASCII byte
 				sb.WriteByte(byte(1 + rng.Intn(127)))
+			case rng.Chance(15): // a token in upper or mixed case
+				sb.WriteString(c12MixCase(strings.ToUpper(Pick(rng, c12Tokens)), rng))
 			default:
 				sb.WriteString(Pick(rng, c12Tokens))
 			}
@@ -203,6 +221,13 @@ func runC12(ctx *Ctx) *Result {
 				pairs = append(pairs, c12Pair{a, Pick(rng, s3)})
 			}
 		}
+	}
+	// case-insensitivity: every string against its upper-case and mixed-case spellings, and
+	// those spellings against other strings (keywords such as ALPHA, Rc, NB are not in the alphabet)
+	for i, a := range strs {
+		up := strings.ToUpper(a)
+		mixed := c12MixCase(a, rng)
+		pairs = append(pairs, c12Pair{a, up}, c12Pair{up, a}, c12Pair{mixed, a}, c12Pair{up, strs[(i*7+3)%len(strs)]}, c12Pair{strs[(i*11+5)%len(strs)], mixed})
 	}
 	nexh := len(pairs)
 	pairs = append(pairs, c12Random(rng, nrand)...)
